@@ -2,6 +2,6 @@ SPECIFICATION Spec
 CONSTANTS
  Alpha = {0, 127, 128, 191, 192, 194, 223, 224, 239, 240, 244, 247, 248, 255, 65, 97}
  MaxLen = 4
-INVARIANTS TwoFormulations DecodeEncode CaseMaps CStrOK
+INVARIANTS TwoFormulations DecodeEncode CaseMaps CStrOK LaxLaws
 ACTION_CONSTRAINT Emit
 CHECK_DEADLOCK FALSE
